@@ -42,7 +42,21 @@ YOUR TASK: produce THREE different behaviour-preserving refactorings of the code
 Deliver them as {wt}/out/r1/, {wt}/out/r2/, {wt}/out/r3/, each holding patch.diff (output of `git -C {wt} diff -- labtech` relative to the CLEAN tree, so each patch applies on its own) and meta.json = {{"property": "{pid}", "summary": "<what was refactored and why it is behaviour-preserving>", "files_touched": [...]}}. For each one verify that the full test suite passes with it applied. Leave the worktree clean at the end. Report briefly what you did."""
 
 
-def main_harmless(root):
+HARMLESS2 = """
+
+VARIANT FOR THIS ROUND: make the three refactorings LARGER and more structural than a local tidy-up, as long as behaviour is
+exactly preserved: e.g. split a long function into two or three private helpers (or merge helpers back), move a method into a
+small mixin/base class or a module-level function, rename a private attribute or helper consistently across the files that use
+it, replace a data structure by an equivalent one (dict of sets vs. set of pairs, Counter vs. dict, list vs. deque) where no
+ordering or identity behaviour changes, turn a chain of ifs into a table lookup, restructure try/except/finally blocks into an
+equivalent form (same exceptions caught, same order of side effects), replace a generator by an equivalent explicit loop,
+introduce a small dataclass/namedtuple for a tuple that is passed around. Each should touch 15 to 60 lines. Deliver them as
+{wt}/out/r4/, {wt}/out/r5/, {wt}/out/r6/ (same contents as described above). The following refactorings were already made by
+previous contributors; yours must be different from them:
+{prev}"""
+
+
+def main_harmless(root, round2=False):
     os.makedirs(root, exist_ok=True)
     for l in open(os.path.join(VERIF, 'properties.jsonl')):
         p = json.loads(l)
@@ -50,7 +64,15 @@ def main_harmless(root):
         wt = f'{root}/{pid}'
         subprocess.run(['git', '-C', '/repo', 'worktree', 'add', '-q', '--detach', wt, 'HEAD'], check=True)
         os.makedirs(f'{wt}/out', exist_ok=True)
-        open(f'{wt}/out/PROMPT.txt', 'w').write(HARMLESS.format(wt=wt, pid=pid, title=p['title'], statement=p['statement']))
+        text = HARMLESS.format(wt=wt, pid=pid, title=p['title'], statement=p['statement'])
+        if round2:
+            prevs = []
+            for r in ('r1', 'r2', 'r3'):
+                mp = os.path.join(VERIF, 'harmless', f'{pid}_{r}', 'meta.json')
+                if os.path.exists(mp):
+                    prevs.append(json.load(open(mp)).get('summary', '')[:300])
+            text += HARMLESS2.format(wt=wt, prev='\n'.join(f'  ({i + 1}) "{x}"' for i, x in enumerate(prevs)))
+        open(f'{wt}/out/PROMPT.txt', 'w').write(text)
     print('harmless prompts ready under', root)
 
 
@@ -102,7 +124,7 @@ Before finishing, VERIFY all of this yourself: (i) with the change applied the f
 
 
 if __name__ == '__main__':
-    if len(sys.argv) > 2 and sys.argv[2] == 'harmless':
-        main_harmless(sys.argv[1])
+    if len(sys.argv) > 2 and sys.argv[2] in ('harmless', 'harmless2'):
+        main_harmless(sys.argv[1], round2=(sys.argv[2] == 'harmless2'))
         sys.exit(0)
     main(sys.argv[1], sys.argv[2].split(',') if len(sys.argv) > 2 else [], mini=(len(sys.argv) > 3 and sys.argv[3] == 'mini'))
